@@ -14,7 +14,7 @@ can be replayed against the abstract table of `Spec/Manager.lean`:
   afterwards (dropped from the table, or half-removed) has a `close` event in the extension;
 * a module that is in the table with an open socket afterwards was there before with the same record (counters aside),
   is still listed under every type it was listed under, and is still in the logger set if it was;
-* nothing is added to a subscriber list or to the logger set.
+* nothing is added to a subscriber list, to the logger set or to the table; the dynamic-id cursor is untouched.
 
 No side condition (neither the index invariant nor fuel adequacy): a contract-based induction through the nested
 `forward`, like `Pres`.
@@ -35,6 +35,8 @@ structure Nest (s s' : State) : Prop where
   idxSub : ∀ t u, u ∈ idxGet s'.idx t → u ∈ idxGet s.idx t
   logKeep : ∀ u, u ∈ s.loggers → openIn s' u → u ∈ s'.loggers
   logSub : s'.loggers.Sublist s.loggers
+  uids : (s'.mods.map (·.uid)).Sublist (s.mods.map (·.uid))
+  ndyn : s'.nextDyn = s.nextDyn
 
 theorem core_closed {a b : Module} (h : a.core = b.core) : a.closed = b.closed := (core_fields h).1
 
@@ -45,10 +47,11 @@ theorem Nest.stay {s s' : State} (h : Nest s s') (u : Nat) (ho : openIn s' u) : 
 
 theorem Nest.refl (s : State) : Nest s s :=
   ⟨rfl, rfl, rfl, rfl, ⟨[], by simp, by simp, fun u h1 h2 => absurd h1 h2⟩, fun _ m h _ => ⟨m, h, rfl⟩,
-   fun _ _ h _ => h, fun _ _ h => h, fun _ h _ => h, List.Sublist.refl _⟩
+   fun _ _ h _ => h, fun _ _ h => h, fun _ h _ => h, List.Sublist.refl _, List.Sublist.refl _, rfl⟩
 
 theorem Nest.trans {a b c : State} (h1 : Nest a b) (h2 : Nest b c) : Nest a c := by
-  refine ⟨h2.buf.trans h1.buf, h2.wlist.trans h1.wlist, h2.fail.trans h1.fail, h2.nuid.trans h1.nuid, ?_, ?_, ?_, ?_, ?_, ?_⟩
+  refine ⟨h2.buf.trans h1.buf, h2.wlist.trans h1.wlist, h2.fail.trans h1.fail, h2.nuid.trans h1.nuid, ?_, ?_, ?_, ?_, ?_, ?_,
+    h2.uids.trans h1.uids, h2.ndyn.trans h1.ndyn⟩
   · obtain ⟨e1, o1, r1, c1⟩ := h1.ext
     obtain ⟨e2, o2, r2, c2⟩ := h2.ext
     refine ⟨e1 ++ e2, by rw [o2, o1, List.append_assoc], fun u hu => ?_, fun u ha hc => ?_⟩
@@ -72,26 +75,27 @@ theorem Nest.trans {a b c : State} (h1 : Nest a b) (h2 : Nest b c) : Nest a c :=
 /-- same tables, log extended by events that are not `rd` markers -/
 theorem nest_same {s s' : State} (hm : s'.mods = s.mods) (hi : s'.idx = s.idx) (hl : s'.loggers = s.loggers)
     (hb : s'.buf = s.buf) (hw : s'.wlist = s.wlist) (hf : s'.fail = s.fail) (hn : s'.nextUid = s.nextUid)
+    (hd : s'.nextDyn = s.nextDyn)
     (ho : ∃ ext, s'.out = s.out ++ ext ∧ ∀ u, Ev.rd u ∉ ext) : Nest s s' := by
   have hfind : ∀ u, s'.find u = s.find u := fun u => by unfold State.find; rw [hm]
   obtain ⟨ext, he, hr⟩ := ho
   refine ⟨hb, hw, hf, hn, ⟨ext, he, hr, fun u h1 h2 => ?_⟩, fun u m' h _ => ⟨m', by rw [← hfind]; exact h, rfl⟩,
     fun _ _ h _ => by rw [hi]; exact h, fun _ _ h => by rw [← hi]; exact h, fun _ h _ => by rw [hl]; exact h,
-    by rw [hl]; exact List.Sublist.refl _⟩
+    by rw [hl]; exact List.Sublist.refl _, by rw [hm]; exact List.Sublist.refl _, hd⟩
   exact absurd (by obtain ⟨m, hm', hc⟩ := h1; exact ⟨m, by rw [hfind]; exact hm', hc⟩) h2
 
 theorem nest_emit (s : State) (e : Ev) (he : ∀ u, e ≠ .rd u) : Nest s (s.emit e) :=
-  nest_same rfl rfl rfl rfl rfl rfl rfl ⟨[e], rfl, fun u hu => by simp at hu; exact he u hu.symm⟩
+  nest_same rfl rfl rfl rfl rfl rfl rfl rfl ⟨[e], rfl, fun u hu => by simp at hu; exact he u hu.symm⟩
 
 theorem nest_crash (s : State) (w : String) : Nest s (s.crash w) := by
   unfold State.crash; split
   · exact Nest.refl s
-  · exact nest_same rfl rfl rfl rfl rfl rfl rfl ⟨[], by simp, by simp⟩
+  · exact nest_same rfl rfl rfl rfl rfl rfl rfl rfl ⟨[], by simp, by simp⟩
 
 theorem nest_count (cfg : Cfg) (s : State) (t : Int) : Nest s (countMsg cfg s t) := by
   unfold countMsg; split
   · exact Nest.refl s
-  · exact nest_same rfl rfl rfl rfl rfl rfl rfl ⟨[], by simp, by simp⟩
+  · exact nest_same rfl rfl rfl rfl rfl rfl rfl rfl ⟨[], by simp, by simp⟩
 
 /-- an update that leaves everything but the two counters alone -/
 theorem nest_upd_core (s : State) (u : Nat) (f : Module → Module) (hu : ∀ m, (f m).uid = m.uid)
@@ -105,7 +109,8 @@ theorem nest_upd_core (s : State) (u : Nat) (f : Module → Module) (hu : ∀ m,
     · rw [core_closed (hc m)]; exact hcl
     · exact hcl
   refine ⟨rfl, rfl, rfl, rfl, ⟨[], by simp [State.upd], by simp, fun v h1 h2 => absurd (hopen v h1) h2⟩, ?_,
-    fun _ _ h _ => h, fun _ _ h => h, fun _ h _ => h, List.Sublist.refl _⟩
+    fun _ _ h _ => h, fun _ _ h => h, fun _ h _ => h, List.Sublist.refl _,
+    by rw [uids_upd s u f hu]; exact List.Sublist.refl _, rfl⟩
   intro v m' hm' _
   rw [hfind] at hm'
   cases h0 : s.find v with
@@ -164,7 +169,7 @@ theorem removePrep_nest (s : State) (u : Nat) (m : Module) (hm : s.find u = some
       simp only [Option.map_some, Option.some.injEq]
       have : (x.uid == u) = false := by simp [this, hv]
       simp [this]
-  refine ⟨h1, h2, h3, h4, ⟨_, removePrep_out s u m, ?_, ?_⟩, ?_, ?_, ?_, ?_, ?_⟩
+  refine ⟨h1, h2, h3, h4, ⟨_, removePrep_out s u m, ?_, ?_⟩, ?_, ?_, ?_, ?_, ?_, ?_, ?_⟩
   · intro v hv; split at hv <;> simp at hv
   · intro v ⟨x, hx, hc⟩ hno
     by_cases hv : v = u
@@ -186,6 +191,10 @@ theorem removePrep_nest (s : State) (u : Nat) (m : Module) (hm : s.find u = some
     have hvu : v ≠ u := fun e => removePrep_notOpen s u m (e ▸ ho)
     rw [removePrep_loggers]; exact List.mem_filter.mpr ⟨hv, by simpa using hvu⟩
   · rw [removePrep_loggers]; exact List.filter_sublist
+  · have : (removePrep s u m).mods.map (·.uid) = s.mods.map (·.uid) := by
+      unfold removePrep; dsimp only; split <;> exact uids_upd _ u _ (fun _ => rfl)
+    rw [this]; exact List.Sublist.refl _
+  · unfold removePrep; dsimp only; split <;> rfl
 
 /-- dropping the table entry of a module whose socket is already closed -/
 theorem nest_dropMod (s : State) (u : Nat) (hno : ¬ openIn s u) :
@@ -194,7 +203,7 @@ theorem nest_dropMod (s : State) (u : Nat) (hno : ¬ openIn s u) :
     fun v hv => find_filter_ne _ _ _ hv
   have hself : ({ s with mods := s.mods.filter (·.uid != u) } : State).find u = none := find_filter_eq _ _
   refine ⟨rfl, rfl, rfl, rfl, ⟨[], by simp, by simp, ?_⟩, ?_, fun _ _ h _ => h, fun _ _ h => h, fun _ h _ => h,
-    List.Sublist.refl _⟩
+    List.Sublist.refl _, List.Sublist.map _ List.filter_sublist, rfl⟩
   · intro v ⟨x, hx, hc⟩ hn
     by_cases hv : v = u
     · subst hv; exact absurd ⟨x, hx, hc⟩ hno
@@ -348,8 +357,8 @@ theorem infoAll_nest (cfg : Cfg) : ∀ (ms : List Module) (s : State), Nest s (i
 /-- a change of the statistics / timer fields only -/
 theorem nest_stats {s s' : State} (hm : s'.mods = s.mods) (hi : s'.idx = s.idx) (hl : s'.loggers = s.loggers)
     (hb : s'.buf = s.buf) (hw : s'.wlist = s.wlist) (hf : s'.fail = s.fail) (hn : s'.nextUid = s.nextUid)
-    (ho : s'.out = s.out) : Nest s s' :=
-  nest_same hm hi hl hb hw hf hn ⟨[], by simp [ho], by simp⟩
+    (ho : s'.out = s.out) (hd : s'.nextDyn = s.nextDyn := by rfl) : Nest s s' :=
+  nest_same hm hi hl hb hw hf hn hd ⟨[], by simp [ho], by simp⟩
 
 theorem sendTiming_nest (cfg : Cfg) (s : State) : Nest s (sendTiming cfg s) := by
   unfold sendTiming
